@@ -169,9 +169,7 @@ class Verifier(object):
             if p in custom:
                 env.set(p, custom[p])
             elif p in case:
-                v = case[p]
-                if isinstance(v, str) and v.startswith("type:"):
-                    v = fresh_of_type(m, v[5:], p)
+                v = self._case_value(m, case[p], p)
                 env.set(p, v)
             elif p == "self" and c.self_class is not None:
                 inst = Inst(c.self_class, module=module.name)
@@ -193,6 +191,13 @@ class Verifier(object):
             if k not in env.vars:
                 env.set(k, v)
         return env
+
+    def _case_value(self, m, v, p):
+        if isinstance(v, str) and v.startswith("type:"):
+            return fresh_of_type(m, v[5:], p)
+        if isinstance(v, tuple):
+            return tuple(self._case_value(m, x, "%s.%d" % (p, k)) for k, x in enumerate(v))
+        return v
 
     def _default_of(self, m, node, module, p):
         a = node.args
@@ -237,6 +242,13 @@ class Verifier(object):
                 value = r.value
         except PyRaise as ex:
             outcome, exc = "raise", ex
+        except PathEnd:
+            # the path ended inside the body (arbitrary loop iteration checked): trace clauses still apply
+            for hook in c.path_hooks_:
+                hook(m, path, fr, env, "ended", None, None)
+            raise
+        for hook in c.path_hooks_:
+            hook(m, path, fr, env, outcome, value, exc)
         rep.exit_paths += 1
         path.exit = (outcome, value, exc)
         path.final_env = env
